@@ -1,7 +1,11 @@
 (* C11 — Loose objects written by gitoxide are git objects and read back exactly.
-   Only statements here; every proof is [exact <lemma>].  Model: Model.v. *)
+   Only statements here; every proof is [exact <lemma>].  Model: Model.v
+   (gix-odb loose::Store::{write*, finalize_object, hash_path, find_inner, try_header},
+    gix-features zlib::stream::inflate::read, gix-object {encode,decode}::loose_header, btoi).
+   [zfile] is a file as flate2's decompressor sees it: [z_out] is everything that inflates from it,
+   [z_end] says how the stream stops (ZEnd: proper end, ZMore: the file ends first, ZBad: corrupt). *)
 From GixV.Base Require Import Bytes BytesFacts Outcome.
-From GixV.C11 Require Import Model Proofs.
+From GixV.C11 Require Import Model Proofs ProofsHeader ProofsRT.
 Local Open Scope N_scope.
 
 (* the object path is git's: a directory named by the first byte in hex, a file named by the other 19 *)
@@ -10,6 +14,98 @@ Theorem path_is_git_path : forall id, length id = 20%nat ->
               d ++ f = hex_encode id /\ d = hex_encode (firstn 1 id) /\ f = hex_encode (skipn 1 id).
 Proof. exact L_hash_path. Qed.
 
-(* a truncated file is never returned as an object, whatever could be inflated from it *)
+(* every writer stores deflate("<kind> <declared size>\0" ++ data) under the digest of exactly these
+   bytes (git's object id when the declared size is the data's length), at git's path for that id *)
+Theorem write_places_object_like_git : forall H deflate, (forall x, length (H x) = 20%nat) ->
+  forall k declared data,
+  exists w, store_write H deflate k declared data = Ok w /\
+    w_id w = H (kind_bytes k ++ [x20] ++ N_to_dec declared ++ [x00] ++ data) /\
+    w_dir w ++ w_name w = hex_encode (w_id w) /\ length (w_dir w) = 2%nat /\ length (w_name w) = 38%nat /\
+    w_content w = deflate (loose_header k declared ++ data).
+Proof. exact L_store_write. Qed.
+
+(* the header gix writes is the header gix reads, for every u64 size, whatever follows it *)
+Theorem header_roundtrip : forall k n rest, n <= U64_MAX ->
+  decode_loose_header (loose_header k n ++ rest) = Ok (k, n, length (loose_header k n)).
+Proof. exact L_decode_encode. Qed.
+
+(* loose_RT: a file whose stream is complete and inflates to header ++ data reads back as exactly
+   (kind, data) — for EVERY size, i.e. on both sides of the 64-byte header buffer, with or without
+   bytes behind the stream.  Side conditions: the file is not empty, buffer sizes fit isize and the
+   allocation succeeds. *)
+Theorem loose_RT : forall alloc_ok f k data tail, f <> [] ->
+  N.of_nat (length f) + len (loose_header k (len data) ++ data) <= ISIZE_MAX ->
+  alloc_ok (N.of_nat (length f) + len (loose_header k (len data) ++ data)) = true ->
+  find_inner alloc_ok (mkz f (loose_header k (len data) ++ data) ZEnd tail) = Ok (k, data).
+Proof. exact L_loose_RT. Qed.
+
+(* whenever find_inner returns an object the zlib stream in the file ended properly ... *)
+Theorem found_object_needs_stream_end : forall alloc_ok zf r, find_inner alloc_ok zf = Ok r -> z_end zf = ZEnd.
+Proof. exact L_find_ok_needs_end. Qed.
+
+(* ... so a truncated file is never returned as an object, whatever could still be inflated from it,
+   and neither is a corrupt one *)
 Theorem truncated_is_error : forall alloc_ok zf r, z_end zf = ZMore -> find_inner alloc_ok zf <> Ok r.
 Proof. exact L_truncated_is_error. Qed.
+Theorem corrupt_is_error : forall alloc_ok zf r, z_end zf = ZBad -> find_inner alloc_ok zf <> Ok r.
+Proof. exact L_corrupt_is_error. Qed.
+
+(* try_header finds size and kind in the first 192 bytes of the file, complete or not *)
+Theorem header_lookup : forall f k n rest e tail,
+  f <> [] -> (length f <= 192)%nat -> n <= U64_MAX -> e <> ZBad ->
+  try_header (Some (mkz f (loose_header k n ++ rest) e tail)) = Ok (Some (n, k)).
+Proof. exact L_try_header. Qed.
+
+(* End to end under the zlib contract (premises: inflate (deflate x) = x with a proper end; a stream
+   is not empty; a strict prefix of a stream runs out of input): what write_buf stored is found
+   again as the same kind and bytes, under git's id, at git's path ... *)
+Theorem written_object_reads_back : forall alloc_ok H deflate zview,
+  (forall x, length (H x) = 20%nat) ->
+  (forall x, zview (deflate x) = mkz (deflate x) x ZEnd false) ->
+  (forall x, deflate x <> []) ->
+  forall k data w,
+  N.of_nat (length (deflate (loose_header k (len data) ++ data))) + len (loose_header k (len data) ++ data) <= ISIZE_MAX ->
+  alloc_ok (N.of_nat (length (deflate (loose_header k (len data) ++ data))) + len (loose_header k (len data) ++ data)) = true ->
+  write_buf H deflate k data = Ok w ->
+  find_inner alloc_ok (zview (w_content w)) = Ok (k, data) /\
+  w_id w = H (kind_bytes k ++ [x20] ++ N_to_dec (len data) ++ [x00] ++ data) /\
+  w_dir w ++ w_name w = hex_encode (w_id w).
+Proof. exact L_write_then_find. Qed.
+
+(* ... and every strict prefix of a file any writer produced is an error *)
+Theorem truncated_written_file_is_error : forall alloc_ok H deflate zview,
+  (forall x, length (H x) = 20%nat) ->
+  (forall x p s, deflate x = p ++ s -> s <> [] -> z_end (zview p) = ZMore) ->
+  forall k declared data w p s r,
+  store_write H deflate k declared data = Ok w -> w_content w = p ++ s -> s <> [] ->
+  find_inner alloc_ok (zview p) <> Ok r.
+Proof. exact L_truncated_written_is_error. Qed.
+
+(* ---- non-vacuity ---------------------------------------------------------------------------- *)
+
+(* 57 bytes of data make 65 bytes with the header: one more than the header buffer *)
+Example rt_across_header_buffer :
+  find_inner (fun _ => true) (mkz [x78] (loose_header Blob 57 ++ repeat x61 57) ZEnd false)
+  = Ok (Blob, repeat x61 57).
+Proof. vm_compute. reflexivity. Qed.
+Example rt_filling_header_buffer :
+  find_inner (fun _ => true) (mkz [x78] (loose_header Blob 56 ++ repeat x61 56) ZEnd true)
+  = Ok (Blob, repeat x61 56).
+Proof. vm_compute. reflexivity. Qed.
+
+(* the input of the former defect: everything was inflated, only the stream's trailer is cut off *)
+Example truncated_trailer_example :
+  find_inner (fun _ => true) (mkz [x78] (loose_header Blob 57 ++ repeat x61 57) ZMore false) = Err Corrupt /\
+  find_inner (fun _ => true) (mkz [x78] (loose_header Blob 5 ++ bs "ab") ZMore false) = Err Corrupt.
+Proof. vm_compute. split; reflexivity. Qed.
+
+(* headers that used to panic the reader: declared size below what is there; sizes near u64::MAX *)
+Example hostile_sizes :
+  find_inner (fun _ => true) (mkz [x78] (bs "blob 1" ++ [x00] ++ repeat x61 100) ZEnd false) = Err Corrupt /\
+  find_inner (fun _ => true) (mkz [x78] (bs "blob 18446744073709551615" ++ [x00] ++ repeat x61 100) ZEnd false) = Err Oom /\
+  find_inner (fun _ => true) (mkz [x78] (bs "blob 9223372036854775808" ++ [x00] ++ repeat x61 100) ZEnd false) = Err Oom.
+Proof. vm_compute. repeat split; reflexivity. Qed.
+
+Example header_lookup_example :
+  try_header (Some (mkz [x78] (loose_header Tag 70000 ++ repeat x61 300) ZMore false)) = Ok (Some (70000, Tag)).
+Proof. vm_compute. reflexivity. Qed.
